@@ -131,7 +131,10 @@ theorem mono_handleEnded (n : Nat) : ∀ t, Mono t (handleEnded n t) := by
     unfold handleEnded
     split
     · exact Mono.refl t
-    · exact (mono_finish _ _).trans (ih _)
+    · rename_i k rest _
+      have m0 : Mono t ({ t with failedQ := rest } : St) :=
+        ⟨fun _ => rfl, fun _ => rfl, fun _ h => h, fun _ _ h => h, fun _ _ h => h, rfl⟩
+      exact (m0.trans (mono_finish _ k)).trans (ih _)
 
 theorem mono_hostOff (s : St) (h : Nat) : Mono s (hostOff s h) := by
   by_cases hon : s.hostOn h = true
